@@ -995,7 +995,7 @@ class Check:
                            % getattr(validator, '__name__', None) or ('#%s' % i))
                     if type(e) is self._ValidationError:
                         if self.default is not RAISE:
-                            return self.default
+                            return arg_val(target, self.default, scope)
                     else:
                         msg += ' (got exception: %r)' % e
                     errs.append(msg)
